@@ -565,10 +565,6 @@ def universes(tier):
         for a, b in pairs:
             out.append(('%s|%d%d' % ('+'.join(libs_alpha), a, b), libs_alpha,
                         {'syn': [SYN_MOLS[a], SYN_MOLS[b]]}, 2))
-    # two DIFFERENT schemes in one world, the same SMILES given to both
-    mixed = ['CC(C)C(C)C', 'CC']
-    out.append(('synA+BensonGA|mixed', ('synA', 'BensonGA'),
-                {'syn': mixed, 'BensonGA': mixed}, 2))
     shipped = ['BensonGA'] + (['GRWSurface2018'] if tier == 'thorough' else [])
     for L in shipped:
         for a, b in pairs[:(3 if tier == 'thorough' else 1)]:
@@ -678,10 +674,36 @@ def precompute(tier):
     return [[list(r[0]), r[1], r[2], v] for r, v in zip(reqs, res)]
 
 
+MIXED = ['CC(C)C(C)C', 'CC']
+
+
+def run_cross(R, L1, L2, tier):
+    """Two libraries with DIFFERENT schemes in one process, the same SMILES
+    given to both: all sequences of <= 2 (thorough 3) decompositions."""
+    import itertools
+    evs = [('dec', i, m) for i in (0, 1) for m in MIXED]
+    for n in range(1, (3 if tier == 'thorough' else 2) + 1):
+        for seq in itertools.product(evs, repeat=n):
+            hist = (('load', L1), ('load', L2))
+            w = rebuild(hist)
+            for ev in seq:
+                obs = apply(w, ev)
+                R.evals += 1
+                R.nontrivial += 1
+                res = check_observation(R, w, ev, obs, hist, 'cross')
+                R.outcomes['cross:%s:%s' % (ev[0], res)] += 1
+                hist = hist + (ev,)
+            R.traces += 1
+            R.transitions += len(seq)
+    R.sample(dict(cross=[L1, L2], molecules=MIXED), limit=1)
+
+
 def shards(tier, seed):
     base = syn_dir()
     table = precompute(tier)
     out = [('bfs',) + u + (base, table) for u in universes(tier)]
+    out += [('cross', 'synA', 'BensonGA', base, table),
+            ('cross', 'BensonGA', 'synA', base, table)]
     out += [('seq', ('load', 'synA'), base, table), ('seq', ('load', 'synB'), base, table)]
     return out
 
@@ -703,6 +725,8 @@ def run_shard(shard, tier):
     adopt(shard[-2], shard[-1])
     if shard[0] == 'bfs':
         run_universe(R, shard[1], tuple(shard[2]), shard[3], shard[4], tier)
+    elif shard[0] == 'cross':
+        run_cross(R, shard[1], shard[2], tier)
     else:
         run_stateless(R, tuple(shard[1]), tier)
     R.extra['max_fresh_process_baselines'] = len(_BASE)
